@@ -154,6 +154,9 @@ Finish ==
 
 Next == Resolve \/ Clamp \/ Count \/ Emit \/ LoopExit \/ Place \/ Finish
 Spec == Init /\ [][Next]_vars
+(* the scheduler loop terminates: every fair behaviour reaches "done" (fi grows by fs/L >= fs/N per bin) *)
+FairSpec == Spec /\ WF_vars(Next)
+Terminates == <>(pc = "done")
 
 (***************************************************************************)
 (* Invariants: the clauses of C02, C03, C04 on every stored bin            *)
